@@ -127,7 +127,7 @@ pub fn run_c12(tier: Tier) -> ! {
         }
         t.per_world.push(json!({"world": label, "states": st.states, "transitions": st.transitions, "depth_completed": st.depth_completed, "closed": st.closed}));
     }
-    finish_r(t, "C12", tier, json!({"reactive_worlds": n_r, "hsa": tier.pick("2..=7", "2..=10 and 126"), "gap_factors": tier.pick(vec![1, 2], vec![1, 2, 5]), "join_budget": tier.pick(1, 2)}), vec!["c12_successor_learnt_from_witnessed_pass", "c12_gap_poll", "c12_post_claim_scan_complete", "c12_new_successor_gets_token", "c12_new_sweep_after_pause", "c12_reply_not_ready", "c12_reply_ready", "c12_reply_in_ring"])
+    finish_r(t, "C12", tier, json!({"reactive_worlds": n_r, "hsa": tier.pick("2..=7", "2..=10 and 126"), "gap_factors": tier.pick(vec![1, 2], vec![1, 2, 5]), "join_budget": tier.pick(1, 2)}), vec!["c12_reclaim_after_token_loss", "c12_successor_learnt_from_witnessed_pass", "c12_gap_poll", "c12_post_claim_scan_complete", "c12_new_successor_gets_token", "c12_new_sweep_after_pause", "c12_reply_not_ready", "c12_reply_ready", "c12_reply_in_ring"])
 }
 
 fn finish_r(t: Totals, prop: &str, tier: Tier, bounds: Value, witnesses: Vec<&'static str>) -> ! {
